@@ -534,7 +534,14 @@ func (cs *connState) handleRequest() bool {
 	}
 
 	// Handle the message.
-	r := cs.handle(m)
+	var r message
+	if flush, ok := m.(*tflush); ok && flush.OldTag == tag {
+		// A flush naming its own tag has nothing to wait for; waiting for
+		// the tag to clear would block this handler on itself forever.
+		r = &rflush{}
+	} else {
+		r = cs.handle(m)
+	}
 
 	// Clear the tag before sending. That's because as soon as this
 	// hits the wire, the client can legally send another message
